@@ -20,7 +20,12 @@ import (
 	"github.com/creack/pty"
 )
 
-func vfBin(name string) string { return filepath.Join(os.Getenv("VF_BINDIR"), name) }
+func vfBin(name string) string {
+	if strings.HasPrefix(name, "/") {
+		return name
+	}
+	return filepath.Join(os.Getenv("VF_BINDIR"), name)
+}
 
 func vfProcEnv(home string) []string {
 	var env []string
@@ -132,6 +137,80 @@ func vfSafeBlob(r *vfRand, n int) []byte {
 
 func vfPtyCases() []vfCase {
 	var cases []vfCase
+	// a transfer that the server forks into the background (tsz -f over the tunnel): the wrapper is handed back at
+	// once and must be transparent while and after the background transfer runs; the remote "shell" is `cat`
+	for _, dir := range []string{"down", "up"} {
+		dir := dir
+		cases = append(cases, vfCase{ID: "proc-fork-then-transparent-" + dir, Run: func(c *vfCtx) {
+			src := filepath.Join(c.Dir, "src")
+			dst := filepath.Join(c.Dir, "dst")
+			os.MkdirAll(src, 0755)
+			os.MkdirAll(dst, 0755)
+			data := vfNewRand(c.ID, "data").Bytes(300000)
+			os.WriteFile(filepath.Join(src, "forked.bin"), data, 0644)
+			var p *vfProcSession
+			var err error
+			if dir == "down" {
+				pfx := fmt.Sprintf("'%s' -f -t 30 '%s'; echo REMOTE-SHELL-IS-BACK;", vfBin("tsz"), filepath.Join(src, "forked.bin"))
+				p, err = vfStartServerProc(c, pfx, "/bin/cat", nil, src, true)
+				if err == nil {
+					p.filter.SetDefaultDownloadPath(dst)
+				}
+			} else {
+				pfx := fmt.Sprintf("'%s' -f -t 30 '%s'; echo REMOTE-SHELL-IS-BACK;", vfBin("trz"), dst)
+				p, err = vfStartServerProcDeferred(c, pfx, "/bin/cat", nil, dst, true, []string{filepath.Join(src, "forked.bin")})
+			}
+			if err != nil {
+				c.Inconc("cannot start: %v", err)
+				return
+			}
+			defer func() {
+				p.clientIn.Close()
+				p.cmd.Process.Kill()
+				p.wait(5 * time.Second)
+			}()
+			ok := false
+			for dl := time.Now().Add(60 * time.Second); time.Now().Before(dl); time.Sleep(50 * time.Millisecond) {
+				if b, err := os.ReadFile(filepath.Join(dst, "forked.bin")); err == nil && bytes.Equal(b, data) {
+					ok = true
+					break
+				}
+			}
+			if !ok {
+				c.Slow("c05-fork-transfer-not-done", "the background transfer did not deliver the file within 60 s; terminal %q stderr %q", vfHead(p.clientOut.Bytes(), 300), vfHead(p.stderr.Bytes(), 300))
+				return
+			}
+			for dl := time.Now().Add(10 * time.Second); p.filter.IsTransferringFiles() && time.Now().Before(dl); {
+				time.Sleep(10 * time.Millisecond)
+			}
+			if p.filter.IsTransferringFiles() {
+				c.Viol("c05-still-transferring:fork", "the transfer went on in the background and has delivered its file, yet the wrapper still reports a transfer in progress 10 s later")
+				return
+			}
+			// the foreground trz/tsz has exited (it forwards its input to the background process until then)
+			for dl := time.Now().Add(20 * time.Second); !bytes.Contains(p.clientOut.Bytes(), []byte("REMOTE-SHELL-IS-BACK")) && time.Now().Before(dl); {
+				time.Sleep(10 * time.Millisecond)
+			}
+			if !bytes.Contains(p.clientOut.Bytes(), []byte("REMOTE-SHELL-IS-BACK")) {
+				c.Slow("c05-fork-shell-not-back", "the foreground process did not return to the shell within 20 s: terminal %q", vfHead(p.clientOut.Bytes(), 300))
+				return
+			}
+			time.Sleep(100 * time.Millisecond)
+			// transparency: typed text reaches `cat` and comes back
+			o0 := p.clientOut.Len()
+			probe := []byte("typed after the forked transfer 0123456789\n")
+			p.clientIn.WriteAtomic(probe)
+			for dl := time.Now().Add(5 * time.Second); !bytes.Contains(p.clientOut.Bytes()[o0:], probe) && time.Now().Before(dl); {
+				time.Sleep(5 * time.Millisecond)
+			}
+			if got := p.clientOut.Bytes()[o0:]; !bytes.Contains(got, probe) {
+				c.Viol("c05-not-transparent:fork", "after a transfer that the server forked into the background, typed text did not make the round trip through the remote `cat`: terminal received %q", vfHead(got, 120))
+				return
+			}
+			c.Obs("forked_transfers_then_probed", 1)
+			c.Nontrivial("fork then transparent " + dir)
+		}})
+	}
 	codes := []int{0, 1, 7, 130, 255}
 	for i, code := range codes {
 		i, code := i, code
